@@ -48,6 +48,9 @@ def make_content(client_or_group, spec, client=None):
     if k == 'contract_call':
         # the high-level path: ContractInterface fetched from the node -> ContractCall -> transaction
         ci = (client or g).contract(KT_COUNTER)
+        if spec.get('pinned_block'):
+            # the documented way to inspect a contract at a past block; calls built from it are still sent now
+            ci = ci.using(block_id=f'head~{int(spec["pinned_block"])}')
         call = getattr(ci, spec.get('entrypoint', 'increment'))(spec.get('arg', 1))
         if spec.get('amount'):
             call = call.with_amount(spec['amount'])
@@ -95,7 +98,7 @@ class World:
         self.node = nodesim.SimNode(self.sim, {
             'pending_key': cfg.get('pending_key', 'validated'), 'pending_pairs': cfg.get('pending_pairs', False),
             'block_delay_s': cfg.get('block_delay_s', 8), 'chain_name': cfg.get('chain_name', 'TEZOS_MAINNET'),
-            'bake_jitter_ms': cfg.get('bake_jitter_ms', []), 'filter_rpc': cfg.get('filter_rpc', 'default'),
+            'bake_jitter_ms': cfg.get('bake_jitter_ms', []), 'filter_rpc': cfg.get('filter_rpc', 'default'), 'constants': cfg.get('constants'),
         })
         sk, pk, pkh = KEYS[cfg.get('key', 'tz1')]
         self.pkh = pkh
@@ -213,6 +216,13 @@ class World:
             grp = None
             if st.get('via') == 'bulk':
                 parts = [make_content(self.client, dict(s, raw_call=True) if s['kind'] == 'contract_call' else s, client=self.client) for s in specs]
+                if st.get('stale_member'):
+                    # one member is rebuilt from contents stored earlier (already filled: counters, fees and limits set, no branch)
+                    donor = next((gg for gg in self.groups.values() if gg.get('filled') is not None), None)
+                    if donor is not None:
+                        stored = json.loads(json.dumps(donor['filled'].contents))
+                        parts.append(self.client.operation_group(contents=stored))
+                        self.bump(self.info, 'bulk_member_rebuilt_from_stored_contents')
                 grp = self.client.bulk(*parts)
             else:
                 for s in specs:
